@@ -194,7 +194,17 @@ def r_user_coroutine_uses(ctx: Ctx, rule: str):
             return bool(vals) and all(isinstance(strip_cast(v), ast.Call) and sc.callee(strip_cast(v)).kind == "pkg" and sc.callee(strip_cast(v)).targets
                                       and all(t.is_async for t in sc.callee(strip_cast(v)).targets) for v in vals)
 
-        check(f, {name for name in sc.defs if (sc.name_ty(name) is not None and sc.name_ty(name).head in ("UserValue", "internals.helpers._R")) and not pkg_coroutine(name)})
+        def from_user_call(name: str) -> bool:
+            # `c = self._helper(...)` whose (spliced) helper returns what the user's function returned
+            for fr_, _e, v in ctx.vals.leaves(f, None, ast.Name(id=name, ctx=ast.Load())):
+                if isinstance(v, ast.Call):
+                    cal_ = ctx.an.scope(fr_).callee(v)
+                    if cal_.kind == "user" or any(t.name == "star_function" for t in cal_.targets):
+                        return True
+            return False
+
+        check(f, {name for name in sc.defs if ((sc.name_ty(name) is not None and sc.name_ty(name).head in ("UserValue", "internals.helpers._R")) or from_user_call(name))
+                  and not pkg_coroutine(name)})
     rep.floor(rule, "uses of user coroutines in spawners", uses[0], 3)
 
 
@@ -538,7 +548,7 @@ def _removal_is_snapshot_keyed(ctx: Ctx, f: FuncInfo, r: Node, eff, susp_before:
     if live:
         # iterating the live registry (or a copy made after the suspension): per-element guard required
         guard = _enclosing_if_texts(r.func, r)
-        if any(".done()" in t for t in guard):
+        if any(".done()" in t for t in guard) or _done_guarded(ctx, f, r):
             return True
         return False
     if locals_:
@@ -548,7 +558,7 @@ def _removal_is_snapshot_keyed(ctx: Ctx, f: FuncInfo, r: Node, eff, susp_before:
                  any(field_of(x) in ("_tasks_ended", "_tasks_cancelled", "_tasks_running") for x in _local_sources(ctx, frame, fenv, nm))]
         if views:
             guard = _enclosing_if_texts(r.func, r)
-            return True if any(".done()" in t for t in guard) else False
+            return True if any(".done()" in t for t in guard) or _done_guarded(ctx, f, r) else False
         verdicts = [_snapshot_gathered(ctx, f, r, nm, eff, frame, fenv) for nm in locals_]
         if all(v is True for v in verdicts):
             return True
@@ -717,6 +727,34 @@ def _defined_before(ctx: Ctx, f: FuncInfo, name: str, susp: List[Node], frame: O
         if not any(can_follow(d, s) for s in susp):
             return False
     return True
+
+
+def _done_guarded(ctx: Ctx, f: FuncInfo, r: Node) -> bool:
+    """The step is reached only through the `done` outcome of a `<task>.done()` test (however the test is spelled: an enclosing
+    `if t.done():`, or `if not t.done(): continue` before it)."""
+    g = ctx.an.cfg(r.root if r.root is not None else f)
+
+    def done_test(n: Node):
+        e, neg = n.ast, False
+        while isinstance(e, ast.UnaryOp) and isinstance(e.op, ast.Not):
+            e, neg = e.operand, not neg
+        if isinstance(e, ast.Call) and isinstance(e.func, ast.Attribute) and e.func.attr == "done" and not e.args:
+            return neg
+        return None
+
+    tests = {n: done_test(n) for n in g.nodes if n.op == "test" and n.pred and done_test(n) is not None}
+    if not tests:
+        return False
+
+    def ef(a: Node, b: Node, lab: Label) -> bool:
+        if a in tests and lab[0] in ("T", "F"):
+            is_done_edge = (lab[0] == "T") != tests[a]
+            return not is_done_edge
+        return True
+
+    copies = [n for n in g.nodes if n.ast is r.ast and n.op == r.op and n.pred]
+    reachable = reach([g.entry], ef)
+    return bool(copies) and not any(c in reachable for c in copies)
 
 
 def _enclosing_if_texts(f: FuncInfo, n: Node) -> List[str]:
